@@ -114,6 +114,30 @@ type GView struct {
 	Kind    int
 	Obj     interface{}
 	VC      VC
+	ObjVC   VC // clock the pending operation will join when it executes (nil if none): with VC it gives the clock of the goroutine's NEXT transition
+}
+
+type vcHolder interface{ objVC() VC }
+
+func (c *Chan[T]) objVC() VC { return c.vc }
+func (m *Mutex) objVC() VC   { return m.vc }
+func (m *RWMutex) objVC() VC { return m.vc }
+func (o *Once) objVC() VC    { return o.vc }
+
+// pendingObjVC: the object clock that g's pending operation joins into g (the happens-before edges the
+// operation will acquire), or nil.
+func pendingObjVC(g *G) VC {
+	switch g.kind {
+	case OpSend, OpSendWait, OpRecv, OpClose, OpLock, OpRLock, OpOnce:
+		if h, ok := g.obj.(vcHolder); ok {
+			return h.objVC()
+		}
+	case OpWGWait:
+		return g.obj.(*WaitGroup).vc
+	case OpCounterRead:
+		return g.obj.(*Counter).vc
+	}
+	return nil
 }
 
 // Strategy owns every nondeterministic decision of a controlled execution.
@@ -124,6 +148,9 @@ type Strategy interface {
 	PickSched(view []GView, enabled []string, lastClock int) (idx int, abort bool)
 	// PickData is called at every environment choice point with n >= 2 alternatives; 0 is the default.
 	PickData(n int, kind string) int
+	// Final is called once when no goroutine is enabled any more (normal end, leak or deadlock) with the
+	// goroutines that are still alive (blocked): their pending operations take part in race detection too.
+	Final(view []GView, lastClock int)
 }
 
 // Sched is one controlled execution.
@@ -245,6 +272,13 @@ func (s *Sched) loop() {
 			}
 		}
 		if len(en) == 0 {
+			var fview []GView
+			for _, g := range s.sorted {
+				if !g.done {
+					fview = append(fview, GView{ID: g.id, Enabled: false, Kind: g.kind, Obj: g.obj, VC: g.vc, ObjVC: pendingObjVC(g)})
+				}
+			}
+			s.strat.Final(fview, s.lastClock)
 			alive := 0
 			for _, g := range s.gs {
 				if !g.done {
@@ -273,7 +307,7 @@ func (s *Sched) loop() {
 			if g.done {
 				continue
 			}
-			view = append(view, GView{ID: g.id, Enabled: s.enabled(g), Kind: g.kind, Obj: g.obj, VC: g.vc})
+			view = append(view, GView{ID: g.id, Enabled: s.enabled(g), Kind: g.kind, Obj: g.obj, VC: g.vc, ObjVC: pendingObjVC(g)})
 		}
 		ids := make([]string, len(en))
 		for i, g := range en {
